@@ -203,6 +203,9 @@ func handlePayload(h *Handler, errResp errorResponder, p dataPayload, e xmlstrea
 		return err
 	}
 
+	conn.readLock.Lock()
+	defer conn.readLock.Unlock()
+
 	if p.Seq != conn.seq {
 		_, err := xmlstream.Copy(e, errResp.Error(stanza.Error{
 			Type:      stanza.Cancel,
@@ -210,10 +213,6 @@ func handlePayload(h *Handler, errResp errorResponder, p dataPayload, e xmlstrea
 		}))
 		return err
 	}
-	conn.seq++
-
-	conn.readLock.Lock()
-	defer conn.readLock.Unlock()
 	dataLen := base64.StdEncoding.DecodedLen(len(p.Data))
 	// If this would cause the buffer to grow beyond the maximum size, send back
 	// an error.
@@ -240,6 +239,10 @@ func handlePayload(h *Handler, errResp errorResponder, p dataPayload, e xmlstrea
 	if err != nil {
 		return err
 	}
+	// Only a packet that was accepted uses up its sequence number: the sender
+	// repeats a refused packet (e.g. after resource-constraint) under the same
+	// number.
+	conn.seq++
 
 	iq, ok := errResp.(stanza.IQ)
 	if e != nil && ok {
